@@ -23,6 +23,7 @@ func init() {
 		DetExpr(c, "R-DET")
 		Orphan(c, "R-ORPHAN")
 		FmtErr(c, "R-FMTERR")
+		SortUsed(c, "R-SORTUSED", c.Pkgs)
 	})
 }
 
@@ -649,7 +650,15 @@ func DetExpr(c *core.Ctx, rule string) {
 				}
 			case *ast.RangeStmt:
 				if pp.X == e {
-					return true, "ranged (judged by the loop-body rule)"
+					if _, direct := unorderedSource(info, pp.X); direct {
+						return true, "ranged (judged by the loop-body rule)"
+					}
+					// a variable (or derived sequence) still in hash order is ranged over: judge the body here
+					if good, why := classifyLoop(info, fb, pp); good {
+						return true, "ranged with an order-insensitive body: " + why
+					} else {
+						return false, "ranged over while still in hash order, with an order-sensitive body (" + why + ")"
+					}
 				}
 			case *ast.ReturnStmt:
 				return false, "returned to the caller in map order"
